@@ -491,7 +491,7 @@ class ConfigNode(metaclass=ConfigNodeMeta):
                 other.extend(self)
             else:
                 other.update(self)
-            other.__dict__.update(self.__dict__)
+            other._adopt_attributes(self)
             return other
         elif issubclass(type(self), type(other)): # complex dict/list replaces simple dict/list, leave as is
             return self
@@ -501,12 +501,20 @@ class ConfigNode(metaclass=ConfigNodeMeta):
                 other.extend(self.values())
             else:
                 other.update(enumerate(self))
-            other.__dict__.update(self.__dict__)
+            other._adopt_attributes(self)
             return other
         elif not self._is_plain_composed() and other._is_plain_composed(): # complex dict/list replaces simple list/dict, leave as is
             return self
         else: # any other case, silently give up
             return self
+
+    def _adopt_attributes(self, other):
+        ''' Make a promoted node look like the node it stands in for - except for the file it was written in,
+            which stays its own (file-relative ``!path`` nodes are resolved against it).
+        '''
+        source_file = self._source_file
+        self.__dict__.update(other.__dict__)
+        self._source_file = source_file
 
     @classmethod
     def _is_composed(cls):
